@@ -56,6 +56,18 @@ def tryInsert [DecidableEq κ] (c : Cfg κ) (st : Store κ ν) (i1 i2 : Nat) (k 
       | none, some s => .pos (.free i2 s)
       | none, none => .needCuckoo
 
+/-- one iteration of the loop of `cuckoo_expand_simple` that inserts every element into the temporary
+map (`new_map.insert`, normal mode); `ins` is the insertion loop on the temporary map -/
+def rebuildStep (c : Cfg κ) (ins : Table κ ν → κ → Table κ ν × Res InsPos)
+    (acc : Table κ ν × Res Unit) (sl : Slot κ ν) : Table κ ν × Res Unit :=
+  match acc with
+  | (nm, .err e) => (nm, .err e)
+  | (nm, .ok _) =>
+    match ins nm sl.key with
+    | (nm, .err e) => (nm, .err e)
+    | (nm, .ok (.dup _ _)) => (nm, .ok ())          -- cannot happen: keys are unique
+    | (nm, .ok (.free b s)) => (nm.addTo c b s ⟨c.tag sl.key, sl.key, sl.val⟩, .ok ())
+
 mutual
 
 /-- `cuckoo_insert_loop` preceded by `snapshot_and_lock_two` -/
@@ -123,29 +135,20 @@ def expandSimple [DecidableEq κ] (c : Cfg κ) (locked auto : Bool) : Nat → Ta
       let t := t.migrateAll c
       if newHp > c.hpLimit then (t, .err .badAlloc)
       else
-        let nm : Table κ ν := { (Table.init c (2 ^ newHp * c.S)) with workers := t.workers }
-        match rebuildInto c fuel nm t.cur.elems with
+        -- the temporary map follows this map's policy: no load-factor threshold for an explicit resize,
+        -- the same maximum hashpower
+        let nm : Table κ ν := { (Table.init c (2 ^ newHp * c.S)) with
+                                workers := t.workers, mlf := if auto then t.mlf else 0.0, mhp := t.mhp }
+        match t.cur.elems.foldl (rebuildStep c (insertLoop c false fuel)) (nm, .ok ()) with
         | (_, .err e) => (t, .err e)
         | (nm, .ok _) =>
           let nm := nm.migrateAll c
           let t := t.maybeResizeLocks c (2 ^ nm.hp)
           ({ t with cur := nm.cur, rc := t.rc + 1 }, .ok true)
 
-/-- the loop of `cuckoo_expand_simple` that inserts every element into the temporary map
-(`new_map.insert`, normal mode) -/
-def rebuildInto [DecidableEq κ] (c : Cfg κ) : Nat → Table κ ν → List (Slot κ ν) → Table κ ν × Res Unit
-  | 0, nm, _ => (nm, .err .fuel)
-  | _, nm, [] => (nm, .ok ())
-  | fuel + 1, nm, sl :: rest =>
-    match insertLoop c false fuel nm sl.key with
-    | (nm, .err e) => (nm, .err e)
-    | (nm, .ok (.dup _ _)) => rebuildInto c fuel nm rest          -- cannot happen: keys are unique
-    | (nm, .ok (.free b s)) =>
-      rebuildInto c fuel (nm.addTo c b s ⟨c.tag sl.key, sl.key, sl.val⟩) rest
-
 end
 
 /-- fuel that suffices for every nesting the code can reach below the allocation limit -/
-def Cfg.fuel (c : Cfg κ) (n : Nat) : Nat := 4 * (c.hpLimit + 2) + n + 8
+def Cfg.fuel (c : Cfg κ) (_n : Nat) : Nat := 4 * (c.hpLimit + 2) + 8
 
 end Cuckoo.Model
